@@ -80,7 +80,19 @@ func mainEngine(o *Out, scnFile string, seed int64, count int, modes string, var
 		return
 	}
 	if scnFile != "" {
-		for _, line := range readLines(scnFile) {
+		lines := readLines(scnFile)
+		step := 1
+		if ms := opts["maxscn"]; ms != "" {
+			var maxScn int
+			fmt.Sscanf(ms, "%d", &maxScn)
+			if maxScn > 0 && len(lines) > maxScn {
+				step = len(lines)/maxScn + 1
+			}
+		}
+		for li, line := range lines {
+			if (li+int(seed))%step != 0 {
+				continue
+			}
 			base := parseEngineCfg(asMap(line["cfg"]))
 			exp := asList(line["h"])
 			usesCtx := base.Cancel
